@@ -576,11 +576,17 @@ Qed.
 (* Step 3 (b), assertions: in an accepted text every identifier used as an interval bound of an assertion is the name
    of a constant declaration of the text (which precedes all assertions), and the table of constants holds exactly
    entries that come from constant declarations, with the normalised text of the literal *)
-Theorem assert_bounds_declared f st : elab_file orc du f = Ok st ->
+Lemma elab_file_inv f st : elab_file orc du f = Ok st ->
+  exists st0, elab_file_from orc du (dstate0) f = Ok st0 /\ st = finalize_free st0.
+Proof.
+  unfold elab_file. destruct (elab_file_from orc du dstate0 f) as [st0| |]; intros H; try discriminate H.
+  injection H as <-. exists st0. split; reflexivity.
+Qed.
+Lemma assert_bounds_declared_from f st : elab_file_from orc du dstate0 f = Ok st ->
   (forall a c, In a (f_asserts f) -> In c (bound_ids (snd a)) -> In c (const_decls (f_items f))) /\
   (forall c v, assoc (d_consts st) c = Some v -> declared_in (f_items f) c v).
 Proof.
-  unfold elab_file, elab_file_from. intros H.
+  unfold elab_file_from. intros H.
   apply bind_ok in H. destruct H as (s1 & H1 & H). apply bind_ok in H. destruct H as (s2 & H2 & H3).
   pose proof (elab_imports_consts _ _ _ H1) as E1. cbn [with_name dstate0 d_consts] in E1.
   assert (Hprov : forall c v, assoc (d_consts s2) c = Some v -> declared_in (f_items f) c v).
@@ -594,6 +600,13 @@ Proof.
     { induction A as [|a0 r IH]; intros s s' HA; cbn [elab_asserts] in HA; [injection HA as <-; reflexivity|].
       apply bind_ok in HA. destruct HA as (s3 & HA1 & HA2). rewrite (IH _ _ HA2). eapply elab_assert_env; exact HA1. }
     rewrite <- (Hpres _ _ _ H3). exact Hc.
+Qed.
+
+Theorem assert_bounds_declared f st : elab_file orc du f = Ok st ->
+  (forall a c, In a (f_asserts f) -> In c (bound_ids (snd a)) -> In c (const_decls (f_items f))) /\
+  (forall c v, assoc (d_consts st) c = Some v -> declared_in (f_items f) c v).
+Proof.
+  intros H. destruct (elab_file_inv _ _ H) as (st0 & H0 & ->). exact (assert_bounds_declared_from _ _ H0).
 Qed.
 
 (* -- the converse: every constant declaration of an accepted text is in the table, with the normalised literal -- *)
@@ -703,7 +716,8 @@ Theorem const_table_exact f st : elab_file orc du f = Ok st ->
 Proof.
   intros H c v. split; [apply (proj2 (assert_bounds_declared _ _ H))|].
   intros (ty & lit & Hin & ->).
-  unfold elab_file, elab_file_from in H.
+  destruct (elab_file_inv _ _ H) as (st0 & H0 & ->). clear H. rename H0 into H. cbn [finalize_free d_consts].
+  unfold elab_file_from in H.
   apply bind_ok in H. destruct H as (s1 & H1 & H). apply bind_ok in H. destruct H as (s2 & H2 & H3).
   pose proof (elab_imports_consts _ _ _ H1) as E1. cbn [with_name dstate0 d_consts] in E1.
   assert (I1 : consts_in_vars s1) by (intros c0 Hc0; unfold kmem in Hc0; rewrite E1 in Hc0; discriminate Hc0).
@@ -840,8 +854,10 @@ Qed.
    anything but AttributeError, no import raises outside Exception / SystemExit) it is never 'another exception' *)
 Theorem elab_file_no_crash f : elab_file orc du f <> Crash.
 Proof.
-  unfold elab_file, elab_file_from. apply bind_benign; [apply elab_imports_benign|]. intros s1.
-  apply bind_benign; [apply elab_items_benign|intros s2; apply elab_asserts_benign].
+  assert (H : elab_file_from orc du dstate0 f <> Crash).
+  { unfold elab_file_from. apply bind_benign; [apply elab_imports_benign|]. intros s1.
+    apply bind_benign; [apply elab_items_benign|intros s2; apply elab_asserts_benign]. }
+  unfold elab_file. destruct (elab_file_from orc du dstate0 f); [discriminate|discriminate|exact H].
 Qed.
 
 Theorem file_outcome_clean stl text : file_outcome orc du stl text <> Crash.
